@@ -466,8 +466,20 @@ def subdaily_stream(run, cases):
 
         def classify(a, b):
             elec = bool(case.get("electric", False))      # a reading of exactly 0 of electricity data is a missing reading
-            partial = {"nan30"} | ({"zeros30"} if elec else set())
-            blank = {"allnan", "dropped"} | ({"times0"} if elec else set())
+
+            def state(name):
+                """what the usage column of the variant actually holds: blank (no valid reading), partial (fewer valid
+                readings than the unaltered column), full — decided on the content, not on the name of the alteration"""
+                u = present.get(name)
+                if u is None:
+                    return "blank"
+                v = u.where(u != 0) if elec else u
+                ref = usage.where(usage != 0) if elec else usage
+                if not v.notna().any():
+                    return "blank"
+                return "partial" if int(v.notna().sum()) < int(ref.notna().sum()) else "full"
+            partial = {n for n in (a, b) if state(n) == "partial"}
+            blank = {n for n in (a, b) if state(n) == "blank"}
             off_clock = case["start_hour"] != case["usage_hour"]
             ua, ub = present.get(a), present.get(b)
             def span(u):     # what from_series trims both series to (an all-NaN series is not trimmed)
